@@ -82,12 +82,18 @@ func c05Scenario(r *Run, ts []pduType, idx, maxCallers int) {
 	case 8:
 		stride, seq = 65536, int32(1+rng.Intn(1<<12))
 	}
+	wrapped := int32(0)
 	fresh := func() int32 {
+		step := int32(1 + rng.Intn(3))
 		if stride != 0 {
-			seq += stride * int32(1+rng.Intn(3))
+			step *= stride
+		}
+		if seq > 0x7FFFFFFF-step { // the positive range is used up (worlds that start at its top): go on with small numbers, still distinct
+			wrapped++
+			seq = 64 + wrapped
 			return seq
 		}
-		seq += int32(1 + rng.Intn(3))
+		seq += step
 		return seq
 	}
 	cancels := idx%3 == 2 // walks in which callers' own contexts end
